@@ -1,7 +1,730 @@
 package main
 
-// owned by the client area
+// Client area: deterministic stepping of a real http2.Conn. The harness plays
+// the server over an in-memory connection, one scripted event at a time, and
+// waits for quiescence (read loop parked on an empty buffer, write loop has
+// processed everything queued, or both loops have exited) before it reports
+// what the client wrote and which requests have a result waiting.
+//
+//	cli <id> new <settings-payload-hex> [extra-hex]
+//	cli <id> req <tag> <method> <scheme> <host-hex> <path-hex> <ua-hex> <hdrs> <body>
+//	cli <id> frame <hex>
+//	cli <id> timeout <tag>
+//	cli <id> read <tag>
+//	cli <id> close | cut | failwrite <n> | gauges
+//
+// Result line: "<compared part> ## <diagnostics, not compared>".
 
-type cliConn struct{}
+import (
+	"bytes"
+	"errors"
+	"fmt"
+	"io"
+	"runtime"
+	"sort"
+	"strconv"
+	"strings"
+	"sync"
+	"time"
 
-func (r *runner) runCli(f []string) string { return "bad-op" }
+	http2 "github.com/dgrr/http2"
+	"github.com/valyala/fasthttp"
+	"golang.org/x/net/http2/hpack"
+)
+
+const cliPreface = "PRI * HTTP/2.0\r\n\r\nSM\r\n\r\n"
+
+type cliReq struct {
+	tag    string
+	ctx    *http2.Ctx
+	req    *fasthttp.Request
+	res    *fasthttp.Response
+	read   bool
+	seed   int // body pattern
+	sent   int // body octets seen on the wire so far
+	bodyOK bool
+	bs     *cli_scriptReader
+}
+
+type cliConn struct {
+	mc       *memConn
+	c        *http2.Conn
+	reqs     map[string]*cliReq
+	order    []string
+	rest     []byte // partial frame left over from the previous step
+	hdec     *hpack.Decoder
+	fields   []hpack.HeaderField
+	state    string // "" alive, "dead", "stuck", "hs-err"
+	preface  bool
+	bySid    map[uint32]*cliReq
+	poolSeen int
+	hdecMax  uint32
+}
+
+// cli_scriptReader is a request body stream whose Read results are scripted.
+type cli_scriptReader struct {
+	seed   int
+	off    int
+	chunks []int
+	term   string // eof | eofw | err | zero
+	closed int
+}
+
+func (r *cli_scriptReader) Read(p []byte) (int, error) {
+	if len(r.chunks) == 0 {
+		switch r.term {
+		case "err":
+			return 0, errors.New("scripted read error")
+		case "zero":
+			return 0, nil
+		}
+		return 0, io.EOF
+	}
+	n := r.chunks[0]
+	if n > len(p) {
+		n = len(p)
+		r.chunks[0] -= n
+	} else {
+		r.chunks = r.chunks[1:]
+	}
+	for i := 0; i < n; i++ {
+		p[i] = cli_patByte(r.seed, r.off+i)
+	}
+	r.off += n
+	if len(r.chunks) == 0 && r.term == "eofw" {
+		return n, io.EOF
+	}
+	return n, nil
+}
+
+func (r *cli_scriptReader) Close() error { r.closed++; return nil }
+
+func cli_patByte(seed, i int) byte { return byte((seed + i) % 251) }
+
+func cli_patBytes(seed, n int) []byte {
+	b := make([]byte, n)
+	for i := range b {
+		b[i] = cli_patByte(seed, i)
+	}
+	return b
+}
+
+func cliErrName(err error) string {
+	if err == nil {
+		return "ok"
+	}
+	var we http2.WriteError
+	var ga *http2.GoAway
+	switch {
+	case err == http2.ErrRequestCanceled:
+		return "timeout"
+	case errors.As(err, &we):
+		// a write that failed because the connection had already been closed
+		// is the connection ending, whoever noticed first
+		if strings.Contains(err.Error(), "memconn: closed") {
+			return "eof"
+		}
+		return "write-err"
+	case errors.Is(err, http2.ErrConnectionClosed):
+		return "conn-closed"
+	case errors.Is(err, http2.ErrNotAvailableStreams):
+		return "no-streams"
+	case errors.Is(err, http2.ErrNoMoreStreamIDs):
+		return "no-ids"
+	case err == io.EOF || err == io.ErrUnexpectedEOF:
+		return "eof"
+	case errors.As(err, &ga):
+		return "goaway"
+	}
+	if code, goAway, ok := http2.VerifErrorInfo(err); ok {
+		if strings.Contains(err.Error(), "stream reset by the server") {
+			return fmt.Sprintf("rst:%d", code)
+		}
+		if goAway {
+			return fmt.Sprintf("h2conn:%d", code)
+		}
+		return fmt.Sprintf("h2err:%d", code)
+	}
+	s := err.Error()
+	switch {
+	case strings.Contains(s, "pseudo-header"), strings.Contains(s, "uppercase"), strings.Contains(s, "connection-specific"),
+		strings.Contains(s, "content-length"), strings.Contains(s, ":status"):
+		return "bad-msg"
+	case strings.Contains(s, "memconn: closed"):
+		return "eof"
+	case strings.Contains(s, "memconn"):
+		return "write-err"
+	case strings.Contains(s, "unexpected size"), strings.Contains(s, "does not fit in 64 bits"), strings.Contains(s, "dynamic update"),
+		strings.Contains(s, "no bytes left reading a string"), strings.Contains(s, "huffman"), strings.Contains(s, "zero prefix"):
+		return "hpack"
+	}
+	return "other"
+}
+
+// readIdle: the read loop is parked in Read on an empty buffer of a connection
+// that is still open (a closed one wakes it up).
+func (cc *cliConn) readIdle() bool { return cc.mc.in.idle() && !cc.mc.in.isClosed() }
+
+func (cc *cliConn) quiesce() string {
+	deadline := time.Now().Add(4 * time.Second)
+	spins := 0
+	for {
+		exits := http2.VerifClientLoopExits.Load()
+		if exits >= 2 {
+			return "dead"
+		}
+		if exits == 0 && cc.readIdle() {
+			e, d := http2.VerifClientEnqN.Load(), http2.VerifClientDeqN.Load()
+			if e == d {
+				runtime.Gosched()
+				if cc.readIdle() && http2.VerifClientEnqN.Load() == e && http2.VerifClientDeqN.Load() == d &&
+					http2.VerifClientLoopExits.Load() == 0 {
+					return ""
+				}
+			}
+		}
+		spins++
+		if spins < 200 {
+			runtime.Gosched()
+		} else {
+			time.Sleep(50 * time.Microsecond)
+			if spins%64 == 0 && time.Now().After(deadline) {
+				return "stuck"
+			}
+		}
+	}
+}
+
+// tok is one frame the client wrote: the compared form and a fuller diagnostic form.
+type tok struct {
+	sid  int64
+	cmp  string
+	diag string
+}
+
+// collect turns what the client wrote since the last step into canonical frame
+// tokens.
+func (cc *cliConn) collect() (toks []tok) {
+	b := append(cc.rest, cc.mc.out.take()...)
+	if !cc.preface {
+		if len(b) >= len(cliPreface) && string(b[:len(cliPreface)]) == cliPreface {
+			toks = append(toks, tok{-1, "PRI", "PRI"})
+			b = b[len(cliPreface):]
+			cc.preface = true
+		} else if len(b) > 0 {
+			toks = append(toks, tok{-1, "bad-preface", "bad-preface"})
+			cc.preface = true
+		}
+	}
+	frames, rest := parseFrames(b)
+	cc.rest = rest
+	for _, f := range frames {
+		toks = append(toks, cc.frameTok(f))
+	}
+	return toks
+}
+
+func (cc *cliConn) frameTok(f rawFrame) tok {
+	sid := int64(f.stream)
+	mk := func(cmp, extra string) tok { return tok{sid, cmp, cmp + extra} }
+	switch f.typ {
+	case 0: // DATA
+		ok := "?"
+		if r := cc.bySid[f.stream]; r != nil {
+			good := true
+			for i, x := range f.payload {
+				if x != cli_patByte(r.seed, r.sent+i) {
+					good = false
+				}
+			}
+			r.sent += len(f.payload)
+			if !good {
+				r.bodyOK = false
+			}
+			ok = map[bool]string{true: "ok", false: "BAD"}[good]
+		}
+		return mk(fmt.Sprintf("D%d:%d:%d", f.stream, len(f.payload), f.flags&1), ":"+ok)
+	case 1: // HEADERS
+		p := f.payload
+		if f.flags&0x8 != 0 && len(p) > 0 {
+			pad := int(p[0])
+			p = p[1:]
+			if pad <= len(p) {
+				p = p[:len(p)-pad]
+			}
+		}
+		if f.flags&0x20 != 0 && len(p) >= 5 {
+			p = p[5:]
+		}
+		cc.fields = cc.fields[:0]
+		_, err := cc.hdec.Write(p)
+		if err == nil && f.flags&0x4 != 0 {
+			err = cc.hdec.Close()
+		}
+		var head, tail []string
+		for i, hf := range cc.fields {
+			s := hexOrDash([]byte(hf.Name)) + "=" + hexOrDash([]byte(hf.Value))
+			if i < 5 {
+				head = append(head, s)
+			} else {
+				tail = append(tail, s)
+			}
+		}
+		sort.Strings(tail)
+		st := "ok"
+		if err != nil {
+			st = "hpack-err"
+		}
+		return mk(fmt.Sprintf("H%d:%d:%d:%s:%s", f.stream, f.flags&1, (f.flags>>2)&1, st, strings.Join(append(head, tail...), ",")),
+			fmt.Sprintf(":len=%d", len(f.payload)))
+	case 3:
+		if len(f.payload) == 4 {
+			return mk(fmt.Sprintf("R%d:%d", f.stream, be32(f.payload)), "")
+		}
+	case 4:
+		if f.stream == 0 {
+			if f.flags&1 != 0 {
+				return mk("A0", fmt.Sprintf(":len=%d", len(f.payload)))
+			}
+			var cli_kv []string
+			for i := 0; i+6 <= len(f.payload); i += 6 {
+				cli_kv = append(cli_kv, fmt.Sprintf("%d=%d", int(f.payload[i])<<8|int(f.payload[i+1]), be32(f.payload[i+2:])))
+			}
+			return mk("S0:"+strings.Join(cli_kv, ","), "")
+		}
+	case 6:
+		if f.stream == 0 {
+			return mk(fmt.Sprintf("P0:%d:%s", f.flags&1, hexOrDash(f.payload)), "")
+		}
+	case 7:
+		if len(f.payload) >= 8 && f.stream == 0 {
+			return mk(fmt.Sprintf("G0:%d:%d", be32(f.payload)&0x7fffffff, be32(f.payload[4:])), "")
+		}
+	case 8:
+		if len(f.payload) == 4 {
+			return mk(fmt.Sprintf("W%d:%d", f.stream, be32(f.payload)), "")
+		}
+	}
+	return mk(fmt.Sprintf("F%d:%d:%d:%s", f.stream, f.typ, f.flags, hexOrDash(f.payload)), "")
+}
+
+func be32(b []byte) uint32 {
+	return uint32(b[0])<<24 | uint32(b[1])<<16 | uint32(b[2])<<8 | uint32(b[3])
+}
+
+// The order in which the write loop serves its channels within a step is the
+// scheduler's choice, the order of the frames of one stream is not: tokens are
+// ordered by stream, stably.
+func sortToks(toks []tok) {
+	sort.SliceStable(toks, func(i, j int) bool { return toks[i].sid < toks[j].sid })
+}
+
+func (cc *cliConn) ready() string {
+	var r []string
+	for _, t := range cc.order {
+		q := cc.reqs[t]
+		if !q.read && len(q.ctx.Err) > 0 {
+			r = append(r, t)
+		}
+	}
+	if len(r) == 0 {
+		return "-"
+	}
+	return strings.Join(r, ",")
+}
+
+// finishStep waits for quiescence and renders the step's result.
+func (cc *cliConn) finishStep(prefix string) string {
+	q := cc.quiesce()
+	toks := cc.collect()
+	sortToks(toks)
+	var cmp, diag []string
+	for _, t := range toks {
+		cmp = append(cmp, t.cmp)
+		diag = append(diag, t.diag)
+	}
+	all := strings.Join(diag, " ")
+	if all == "" {
+		all = "-"
+	}
+	out := strings.Join(cmp, ";")
+	if out == "" {
+		out = "-"
+	}
+	if q == "stuck" {
+		cc.state = "stuck"
+		return "stuck ## " + all
+	}
+	if an, _, _, _ := http2.VerifPoolReport(); len(an) > cc.poolSeen {
+		all += " pool=" + strings.Join(an[cc.poolSeen:], ",")
+		cc.poolSeen = len(an)
+	}
+	if q == "dead" {
+		cc.state = "dead"
+		le := "nil"
+		if e := cc.c.LastErr(); e != nil {
+			le = strings.ReplaceAll(e.Error(), " ", "_")
+			if len(le) > 60 {
+				le = le[:60]
+			}
+		}
+		return strings.TrimSpace(prefix+" dead ready="+cc.ready()) + " ## " + all + " lasterr=" + le
+	}
+	return strings.TrimSpace(prefix+" out="+out+" ready="+cc.ready()) + " ## " + all
+}
+
+// ---- forced interleavings (yield points) ----
+// `arm <point>` makes every goroutine that reaches the yield point park until
+// `resume <point>`. `reqgo` and `closego` run Write / Close on goroutines of
+// their own so that they can be parked. Steps that involve parked goroutines are
+// monitored, not compared with the serial model.
+type parker struct {
+	mu     sync.Mutex
+	armed  map[string]bool
+	parked map[string][]chan struct{}
+}
+
+var park = &parker{armed: map[string]bool{}, parked: map[string][]chan struct{}{}}
+
+func (p *parker) yield(point string) {
+	p.mu.Lock()
+	if !p.armed[point] {
+		p.mu.Unlock()
+		return
+	}
+	ch := make(chan struct{})
+	p.parked[point] = append(p.parked[point], ch)
+	p.mu.Unlock()
+	<-ch
+}
+
+func (p *parker) count(point string) int {
+	p.mu.Lock()
+	defer p.mu.Unlock()
+	return len(p.parked[point])
+}
+
+func (p *parker) resume(point string) int {
+	p.mu.Lock()
+	chs := p.parked[point]
+	p.parked[point] = nil
+	p.armed[point] = false
+	p.mu.Unlock()
+	for _, c := range chs {
+		close(c)
+	}
+	return len(chs)
+}
+
+func (p *parker) reset() {
+	p.mu.Lock()
+	for k, chs := range p.parked {
+		for _, c := range chs {
+			close(c)
+		}
+		delete(p.parked, k)
+	}
+	p.armed = map[string]bool{}
+	p.mu.Unlock()
+}
+
+func settle() { time.Sleep(30 * time.Millisecond) }
+
+func (r *runner) runCli(f []string) string {
+	if len(f) < 3 {
+		return "bad-op"
+	}
+	id, op := f[1], f[2]
+	if op == "new" {
+		return r.cliNew(id, f[3:])
+	}
+	cc := r.cli[id]
+	if cc == nil {
+		return "bad-op"
+	}
+	if cc.state == "hs-err" || (cc.state == "stuck" && op != "read") {
+		return cc.state + " ## -"
+	}
+	switch op {
+	case "req":
+		return cc.doReq(f[3:])
+	case "frame":
+		if len(f) != 4 {
+			return "bad-op"
+		}
+		b, ok := unhex(f[3])
+		if !ok {
+			return "bad-op"
+		}
+		if cc.state == "dead" {
+			return "dead ready=" + cc.ready() + " ## -"
+		}
+		cc.noteServerSettings(b)
+		cc.mc.in.write(b)
+		return cc.finishStep("")
+	case "timeout":
+		q := cc.reqs[f[3]]
+		if q == nil {
+			return "bad-op"
+		}
+		http2.VerifCtxFireTimeout(q.ctx)
+		return cc.finishStep("")
+	case "read":
+		q := cc.reqs[f[3]]
+		if q == nil {
+			return "read none ## -"
+		}
+		return cc.doRead(q)
+	case "close":
+		err := cc.c.Close()
+		p := "first"
+		if err == io.EOF {
+			p = "again"
+		}
+		return cc.finishStep(p)
+	case "cut":
+		cc.mc.in.close()
+		return cc.finishStep("")
+	case "arm":
+		fn := park.yield
+		http2.VerifYieldFn.Store(&fn)
+		park.mu.Lock()
+		park.armed[f[3]] = true
+		park.mu.Unlock()
+		return "race ## armed"
+	case "resume":
+		n := park.resume(f[3])
+		settle()
+		return fmt.Sprintf("race ## resumed=%d %s", n, cc.raceDiag())
+	case "reqgo":
+		q, bad := cc.buildReq(f[3:])
+		if bad != "" {
+			return bad
+		}
+		go cc.c.Write(q.ctx)
+		settle()
+		if sid := http2.VerifCtxStreamID(q.ctx); sid != 0 {
+			cc.bySid[sid] = q
+		}
+		return "race ## " + cc.raceDiag()
+	case "closego":
+		go func() { _ = cc.c.Close() }()
+		settle()
+		return "race ## " + cc.raceDiag()
+	case "settle":
+		q := cc.quiesce()
+		if q == "dead" {
+			cc.state = "dead"
+		}
+		return "race ## " + q + " " + cc.raceDiag()
+	case "failwrite":
+		n, _ := strconv.Atoi(f[3])
+		cc.mc.out.setFailAfter(cc.mc.out.total + int64(n))
+		return "ok"
+	case "gauges":
+		open, next, pend, queued := http2.VerifConnGauges(cc.c)
+		return fmt.Sprintf("gauges open=%d next=%d pending=%d queued=%d can=%v ## -", open, next, pend, queued, cc.c.CanOpenStream())
+	}
+	return "bad-op"
+}
+
+// noteServerSettings: the scripted server's own HPACK decoder follows the
+// SETTINGS_HEADER_TABLE_SIZE it announces. A peer that keeps a larger table than
+// announced then produces blocks this decoder cannot read.
+func (cc *cliConn) noteServerSettings(b []byte) {
+	fs, _ := parseFrames(b)
+	for _, f := range fs {
+		if f.typ != 4 || f.stream != 0 || f.flags&1 != 0 || len(f.payload)%6 != 0 {
+			continue
+		}
+		for i := 0; i+6 <= len(f.payload); i += 6 {
+			if int(f.payload[i])<<8|int(f.payload[i+1]) == 1 {
+				v := be32(f.payload[i+2:])
+				cc.hdec.SetAllowedMaxDynamicTableSize(v)
+				if v < cc.hdecMax {
+					cc.hdec.SetMaxDynamicTableSize(v)
+				}
+				cc.hdecMax = v
+			}
+		}
+	}
+}
+
+func (r *runner) cliNew(id string, a []string) string {
+	// one connection at a time: the progress counters are global
+	for k, old := range r.cli {
+		if old.state == "" && old.c != nil {
+			_ = old.c.Close()
+			old.quiesce()
+		}
+		delete(r.cli, k)
+	}
+	if len(a) < 1 {
+		return "bad-op"
+	}
+	first, ok := unhex(a[0])
+	if !ok {
+		return "bad-op"
+	}
+	cc := &cliConn{mc: newMemConn(), reqs: map[string]*cliReq{}, bySid: map[uint32]*cliReq{}, hdecMax: 4096}
+	cc.hdec = hpack.NewDecoder(4096, func(hf hpack.HeaderField) { cc.fields = append(cc.fields, hf) })
+	r.cli[id] = cc
+	park.reset()
+	http2.VerifYieldFn.Store(nil)
+	http2.VerifResetCounters()
+	http2.VerifPoolTrack(true)
+	cc.noteServerSettings(first)
+	cc.mc.in.write(first)
+	cc.c = http2.NewConn(cc.mc, http2.ConnOpts{PingInterval: time.Hour, DisablePingChecking: true})
+	if err := cc.c.Handshake(); err != nil {
+		cc.state = "hs-err"
+		cc.collect()
+		return "hs-err ## -"
+	}
+	return cc.finishStep("hs")
+}
+
+// raceDiag: frames written and results waiting, without waiting for quiescence.
+func (cc *cliConn) raceDiag() string {
+	toks := cc.collect()
+	var d []string
+	for _, t := range toks {
+		d = append(d, t.diag)
+	}
+	if len(d) == 0 {
+		d = []string{"-"}
+	}
+	return strings.Join(d, " ") + " ready=" + cc.ready()
+}
+
+func (cc *cliConn) doReq(a []string) string {
+	q, bad := cc.buildReq(a)
+	if bad != "" {
+		return bad
+	}
+	cc.c.Write(q.ctx)
+	if cc.state == "dead" {
+		return "dead ready=" + cc.ready() + " ## -"
+	}
+	cc.quiesce()
+	if sid := http2.VerifCtxStreamID(q.ctx); sid != 0 {
+		cc.bySid[sid] = q
+	}
+	return cc.finishStep("")
+}
+
+func (cc *cliConn) buildReq(a []string) (*cliReq, string) {
+	if len(a) != 8 {
+		return nil, "bad-op"
+	}
+	tag, method, scheme := a[0], a[1], a[2]
+	host, ok1 := unhex(a[3])
+	path, ok2 := unhex(a[4])
+	ua, ok3 := unhex(a[5])
+	if !(ok1 && ok2 && ok3) || cc.reqs[tag] != nil {
+		return nil, "bad-op"
+	}
+	req, res := fasthttp.AcquireRequest(), fasthttp.AcquireResponse()
+	req.Header.SetMethod(method)
+	req.SetRequestURI(scheme + "://" + string(host) + string(path))
+	if len(ua) > 0 {
+		req.Header.SetUserAgentBytes(ua)
+	}
+	if a[6] != "-" {
+		for _, cli_kv := range strings.Split(a[6], ",") {
+			p := strings.SplitN(cli_kv, "=", 2)
+			if len(p) != 2 {
+				return nil, "bad-op"
+			}
+			k, ok1 := unhex(p[0])
+			v, ok2 := unhex(p[1])
+			if !ok1 || !ok2 {
+				return nil, "bad-op"
+			}
+			req.Header.AddBytesKV(k, v)
+		}
+	}
+	q := &cliReq{tag: tag, req: req, res: res, bodyOK: true}
+	b := strings.Split(a[7], ":")
+	switch b[0] {
+	case "none":
+	case "buf":
+		if len(b) != 3 {
+			return nil, "bad-op"
+		}
+		q.seed, _ = strconv.Atoi(b[1])
+		n, _ := strconv.Atoi(b[2])
+		req.SetBody(cli_patBytes(q.seed, n))
+	case "str":
+		if len(b) != 5 {
+			return nil, "bad-op"
+		}
+		q.seed, _ = strconv.Atoi(b[1])
+		decl, _ := strconv.Atoi(b[2])
+		bs := &cli_scriptReader{seed: q.seed, term: b[4]}
+		if b[3] != "-" {
+			for _, c := range strings.Split(b[3], ".") {
+				n, _ := strconv.Atoi(c)
+				bs.chunks = append(bs.chunks, n)
+			}
+		}
+		q.bs = bs
+		req.SetBodyStream(bs, decl)
+	default:
+		return nil, "bad-op"
+	}
+	q.ctx = http2.VerifNewCtx(req, res)
+	cc.reqs[tag] = q
+	cc.order = append(cc.order, tag)
+	return q, ""
+}
+
+func (cc *cliConn) doRead(q *cliReq) string {
+	if q.read {
+		return "read again ## -"
+	}
+	select {
+	case err := <-q.ctx.Err:
+		http2.VerifCtxTakeBack(q.ctx)
+		q.read = true
+		s := fmt.Sprintf("read %s retry=%d sid=%d", cliErrName(err), map[bool]int{false: 0, true: 1}[http2.VerifRetryable(err)],
+			http2.VerifCtxStreamID(q.ctx))
+		if err == nil {
+			s += " " + cliResponse(q.res)
+		}
+		bsc := ""
+		if q.bs != nil {
+			bsc = fmt.Sprintf(" bsclosed=%d", q.bs.closed)
+		}
+		return s + " ##" + fmt.Sprintf(" cl=%d", q.res.Header.ContentLength()) + bsc + " sent=" + strconv.Itoa(q.sent) + " bodyok=" + strconv.FormatBool(q.bodyOK)
+	default:
+		return "read none ## -"
+	}
+}
+
+func sum32(b []byte) uint32 {
+	var h uint32
+	for _, x := range b {
+		h = h*31 + uint32(x)
+	}
+	return h
+}
+
+func cliResponse(res *fasthttp.Response) string {
+	var hs []string
+	for k, v := range res.Header.All() {
+		lk := bytes.ToLower(k)
+		if string(lk) == "content-type" || string(lk) == "content-length" {
+			continue
+		}
+		hs = append(hs, hexOrDash(lk)+"="+hexOrDash(v))
+	}
+	sort.Strings(hs)
+	h := "-"
+	if len(hs) > 0 {
+		h = strings.Join(hs, ",")
+	}
+	body := res.Body()
+	return fmt.Sprintf("st=%d ct=%s h=%s body=%d:%d", res.StatusCode(),
+		hexOrDash(res.Header.ContentType()), h, len(body), sum32(body))
+}
